@@ -277,6 +277,37 @@ def _same_crop_absolute(ctx, repo, fi, cfg):
     ctx.ok(fi, by_mode["same"], by_mode["same"], "'same' returns absolute bounds on the last axis", key="crop-use")
 
 
+def _bp_by_terms(repo, ff):
+    """The band-pass branch (`typ == 'bp'`), in _freq_filter or in a private helper it calls, evaluated on value terms: the response must be the product of
+    the 'hp' response on b[0:2] and the 'lp' response on b[2:4] (copies / in-place products included)."""
+    from sa.arrterm import TermExec, show
+    cands = [ff] + [repo.fn(q) for c, q in repo.calls_in(ff, include_nested=False) if q and repo.has_fn(q) and q.rsplit(".", 1)[-1].startswith("_")]
+    for f in cands:
+        for st in walk_function(f.node):
+            if isinstance(st, ast.If) and isinstance(st.test, ast.Compare) and loc_name(st.test.left) == "typ" and const_value(st.test.comparators[0]) == (True, "bp") \
+                    and isinstance(st.test.ops[0], ast.Eq):
+                tx = TermExec(f.params)
+                try:
+                    tx.run(st.body)
+                except Undecided as e:
+                    raise AnalysisError(f"band-pass branch of {f.qualname} not evaluable: {e}")
+                t = tx.returned[0] if tx.returned else tx.env.get("filc")
+                if t is None:
+                    raise AnalysisError(f"band-pass branch of {f.qualname}: no response computed")
+
+                def part(x):
+                    """(corner slice, kind) of a response call"""
+                    if not (isinstance(x, tuple) and x[0] == "call"):
+                        return None
+                    sl = [a for a in x[2:] if isinstance(a, tuple) and a[0] == "slice" and a[1] == ("p", "b")]
+                    kd = [a[1] for a in x[2:] if isinstance(a, tuple) and a[0] == "c" and a[1] in ("hp", "lp")] + \
+                         [a[2][1] for a in x[2:] if isinstance(a, tuple) and a[0] == "kw" and a[1] == "typ" and isinstance(a[2], tuple) and a[2][0] == "c"]
+                    return ((sl[0][2], sl[0][3]), kd[0]) if sl and kd else None
+                ok = isinstance(t, tuple) and t[0] == "mul" and sorted(filter(None, [part(t[1]), part(t[2])])) == sorted([((0, 2), "hp"), ((2, 4), "lp")])
+                return ok, show(t)[:160]
+    raise AnalysisError("band-pass branch (typ == 'bp') not found in _freq_filter or its helpers")
+
+
 def d3_filters(ctx):
     ctx.rule("D3", "hp -> f, lp -> 1 - f (same f); bp = hp(b[0:2]) * lp(b[2:4]); cosine threshold extrapolates f(b0) below, f(b1) above")
     repo = ctx.repo
@@ -311,8 +342,12 @@ def d3_filters(ctx):
             t = kwarg(x, "typ")
             sig.append((src(x.args[1]), t.value if isinstance(t, ast.Constant) else None))
         okb = sorted(sig) == sorted([("b[0:2]", "hp"), ("b[2:4]", "lp")])
-    ctx.check(okb, ff, prods[0] if prods else ff.node, prods[0] if prods else "bp", "band-pass = high-pass on b[0:2] times low-pass on b[2:4]",
-              f"band-pass is `{src(prods[0]) if prods else '?'}`: not hp(b[0:2]) * lp(b[2:4])", key="bp")
+    if not prods:
+        okb, shown = _bp_by_terms(repo, ff)
+        ctx.check(okb, ff, ff.node, shown, "band-pass = high-pass on b[0:2] times low-pass on b[2:4]", f"band-pass evaluates to `{shown}`: not hp(b[0:2]) * lp(b[2:4])", key="bp", name_free=True)
+    else:
+        ctx.check(okb, ff, prods[0] if prods else ff.node, prods[0] if prods else "bp", "band-pass = high-pass on b[0:2] times low-pass on b[2:4]",
+                  f"band-pass is `{src(prods[0]) if prods else '?'}`: not hp(b[0:2]) * lp(b[2:4])", key="bp")
     # spectrum multiplied by the expanded response of the same length
     mul = [c for c in find(ff.node, ast.Call, nested=False) if call_name(c) == "fexpand"]
     okx = bool(mul) and len(mul[0].args) >= 2 and loc_name(mul[0].args[1]) == "ns"
